@@ -48,6 +48,18 @@ func (dv *defaultVerifierSimple) verifyRoot(root *Node) ([]string, []string, err
 		return nil, nil, err
 	}
 
+	rootDir := filepath.Join(dv.targetDir, root.path())
+	if fi, err := os.Stat(rootDir); err == nil && !fi.IsDir() {
+		// the root exists as a regular file (e.g. made by Mkdir with a file extension): it is the only entry
+		noExistDirs := []string{}
+		for dir := range dirsMarkdown {
+			if dir != rootDir {
+				noExistDirs = append(noExistDirs, dir)
+			}
+		}
+		return []string{}, noExistDirs, nil
+	}
+
 	dirsFilesystem := map[string]struct{}{}
 	extraDirs := []string{}
 	if err := fs.WalkDir(
@@ -58,8 +70,12 @@ func (dv *defaultVerifierSimple) verifyRoot(root *Node) ([]string, []string, err
 
 			if err != nil {
 				if errors.Is(err, fs.ErrNotExist) {
-					// markdown上のrootが検査対象パスに無いとエラー
-					return verifyError{noExists: []string{dir}}
+					// markdown上のrootが検査対象パスに無いとエラー (rootが無ければその配下も全て無い)
+					noExistDirs := []string{}
+					for d := range dirsMarkdown {
+						noExistDirs = append(noExistDirs, d)
+					}
+					return verifyError{noExists: noExistDirs}
 				}
 				return err
 			}
